@@ -19,8 +19,11 @@ SHAPES = {
     "diamond5": lambda vs: ((vs[0], vs[1]), (vs[1], vs[2]), (vs[2], vs[3]), (vs[3], vs[1]), (vs[0], vs[2])),
     "pentagon": lambda vs: ((vs[0], vs[1]), (vs[1], vs[2]), (vs[2], vs[3]), (vs[3], vs[4]), (vs[0], vs[4]), (vs[1], vs[3])),
     "bare": lambda vs: (vs[0], vs[1]),
+    # a user callback whose number of edges depends on the group it is handed: a clique without the self-loops that arise when
+    # one vertex was drawn into the group twice
+    "simple": lambda vs: [e for e in shape_fn("clique")(vs) if e[0] != e[1]],
 }
-MIN_SIZE = {"clique": 1, "cycle": 1, "diamond": 4, "path": 1, "star": 1, "single": 2, "two": 3,
+MIN_SIZE = {"simple": 1, "clique": 1, "cycle": 1, "diamond": 4, "path": 1, "star": 1, "single": 2, "two": 3,
             "diamond5": 4, "pentagon": 5, "bare": 2}
 N_EDGES = {"clique": lambda n: n * (n - 1) // 2, "cycle": lambda n: n, "diamond": lambda n: 6, "path": lambda n: n - 1,
            "star": lambda n: n - 1, "single": lambda n: 1, "two": lambda n: 2, "diamond5": lambda n: 5,
@@ -62,7 +65,7 @@ def gen_fast_case(rng, malformed=False, small=False, big=False):
         N, T = rng.randint(380, 520), rng.randint(1, 2)
     builds, sizes = [], []
     for _ in range(T):
-        b = rng.choice(["clique", "clique", "cycle", "diamond", "path", "star", "single", "two", "diamond5", "pentagon"])
+        b = rng.choice(["clique", "clique", "cycle", "diamond", "path", "star", "single", "two", "diamond5", "pentagon", "simple"])
         if malformed and b not in ("clique", "cycle", "path", "star"):
             b = "clique"
         if b == "diamond":
@@ -216,8 +219,9 @@ def tuplify(jds):
     return [tuple(r) for r in jds]
 
 
-def run_generator(case, path="direct", algo=None):
-    """run the real generator with scripted shuffles; returns the observation dict"""
+def run_generator(case, path="direct", algo=None, real_rng=False):
+    """run the real generator with scripted shuffles (or, real_rng=True, on the interpreter's own generator as it stands);
+    returns the observation dict"""
     import random
     from gcmpy.names.gcm_algorithm_names import GCMAlgorithmNames as GN
     from gcmpy.gcm_algorithm.gcm_algorithm_fast import GCMAlgorithmFast
@@ -282,7 +286,8 @@ def run_generator(case, path="direct", algo=None):
     holder["algo"] = algo_obj
     sem = GenRandom(case["jds"], case["draws"])
     script = sem.script
-    with installed(sem):
+    import contextlib
+    with (contextlib.nullcontext() if real_rng else installed(sem)):
         out = algo_obj.random_clustered_graph(jds)
     obs = {"class": type(algo_obj).__name__, "unscripted_shuffles": len(sem.unexpected),
            "shuffles_missing": sorted(set(range(len(case["draws"]))) - script.used)}
